@@ -54,6 +54,18 @@ def run(chk):
     for _ in range(chk.n(600, 12000)):
         for kind, t in depgen.malformed(rng):
             cases.append(("dparse", [t])); kinds.append(kind)
+            # the same defect at any position: after complete relations, as a later alternative (C04_reject_at_any_position)
+            ly = depgen.Layout(rng, rng.choice(["free", "canon", "tight"]))
+            pre = depgen.render(depgen.rand_dep(rng, 3, 2, 0.6), ly)
+            alt = depgen.render([[depgen.rand_dep(rng, 1, 1, 0.6)[0][0]]], ly)
+            where = rng.randrange(3)
+            if where == 0:
+                cases.append(("dparse", [pre + ly.ws(0) + b"," + ly.ws(0) + t]))
+            elif where == 1:
+                cases.append(("dparse", [alt + ly.ws(0) + b"|" + ly.ws(0) + t]))
+            else:
+                cases.append(("dparse", [pre + ly.ws(0) + b"," + ly.ws(0) + alt + ly.ws(0) + b"|" + ly.ws(0) + t]))
+            kinds.append(kind + "@later")
     impl, model = chk.run_both(cases)
     chk.compare("malformed-classes", cases, impl, model, nontrivial=lambda c, r: True)
     for c, i, k in zip(cases, impl, kinds):
